@@ -179,6 +179,13 @@ fn refcount_scenarios(o: &mut Out) {
     o.push_line(accounting(&mut p, &med, "one more reference after releases", "sat"));
     p.drop_table("D").unwrap();
     o.push_line(accounting(&mut p, &med, "table dropped", "sat"));
+    // more references than one entry can count arriving in ONE statement (a per-statement shortcut must respect the cap)
+    p.create_table("E", vec![Column::build("K").primary_key().int32(), Column::build("A").nullable().string(0), Column::build("B").nullable().string(0), Column::build("C").nullable().string(0)]).unwrap();
+    let many: Vec<Vec<Value>> = (0..21846).map(|k| vec![Value::Int(k), Value::Str("dup".into()), Value::Str("dup".into()), Value::Str("dup".into())]).collect();
+    p.insert_rows(Insert::into("E").rows(many)).unwrap();
+    o.push_line(accounting(&mut p, &med, "65538 cells in one statement", "dup"));
+    p.delete_rows(Delete::from("E").with(Expr::col("K").lt(Expr::integer(21845)))).unwrap();
+    o.push_line(accounting(&mut p, &med, "all but one of those rows deleted", "dup"));
 }
 
 pub fn main(args: &Args) -> i32 {
